@@ -46,6 +46,9 @@ def gen_value(rng, depth=0):
     if depth == 0 and r > 0.94:
         # a CALLABLE passed as an argument (the generated function returns its description)
         return {"c": rng.choice(CALLABLE_ARGS)}
+    if depth == 0 and r > 0.91:
+        # one of joblib's OWN objects as an argument: a Memory, a MemorizedFunc, an object holding a Memory
+        return {"j": rng.choice(["memory", "memfunc", "holder"])}
     if depth == 0 and r < 0.12:
         # dict / set with keys of mixed kinds (int, str, bytes, tuple, None): the hasher cannot sort them and falls
         # back to ordering by the joblib digest of each key, which must not depend on PYTHONHASHSEED
@@ -360,7 +363,9 @@ def gen_sig_scenario(rng, params, sid, quick=True):
                 events += [["newprocess"], ["define", 0], ["wrap", 0]]
         elif sc["picklable"] and r < 0.62:
             events.append(["rewrap", 0, rng.choice(["pickle", "pickle", "copy", "deepcopy"])])
-        elif r < 0.70 and kind in ("def", "nested", "async", "lambda"):
+        elif r < 0.66 and not multi:
+            events.append(["jlog"])      # the joblib objects used as arguments emit their first warnings
+        elif r < 0.72 and kind in ("def", "nested", "async", "lambda"):
             # the cached function is decorated AGAIN with the same options (a new wrapper around the same function)
             events.append(["recache", 0, {"ignore": list(ignore)}])
         elif r < 0.44:
@@ -373,6 +378,9 @@ def gen_sig_scenario(rng, params, sid, quick=True):
         events = [e for e in events if e[0] not in ("evict", "rmentry") and e[-1] != "side"
                   and not (e[0] == "rewrap" and e[2] in ("dump", "load"))]
     sc["events"] = events
+    if not sc["callback"] and not sc["picklable"] and rng.random() < 0.5:
+        # the validation callback is expires_after(...) with an expiry of a day or more: fresh entries stay valid
+        sc["expires"] = rng.choice([{"days": 1}, {"weeks": 2}, {"hours": 36}, {"days": 7, "seconds": 1}, {"hours": 24}])
     if rng.random() < 0.3 and not sc.get("backend"):
         sc["loc_form"] = rng.choice(["path", "tilde"])     # Memory(pathlib.Path(...)) / Memory("~/...") (HOME in the sandbox)
     if multi:
@@ -581,6 +589,24 @@ def fixed_scenarios(prop):
                     "params": [["a", "pk", None], ["b", "pk", None], ["c", "pk", I(12)], ["d", "ko", I(13)]],
                     "ignore": [], "compress": False, "versions": V, "mode": "own", "events": ev})
     if prop in ("C02", "C06"):
+        # C06-15: joblib's own objects as argument values; they emit their first warnings between two equivalent calls
+        ev = [["define", 0], ["wrap", 0]]
+        jv = [{"j": "memfunc"}, {"j": "memory"}, {"j": "holder"}, {"t": [{"j": "memory"}, I(1)]}]
+        for v in jv:
+            ev += [["check", 0, {"pos": [v], "kw": []}, True], ["call", 0, {"pos": [v], "kw": []}, True]]
+        ev.append(["jlog"])
+        for v in jv:
+            ev += [["check", 0, {"pos": [v], "kw": []}, True], ["call", 0, {"pos": [], "kw": [["a", v]]}, True]]
+        out.append({"id": "fixed-joblib-objects-as-arguments", "type": "sig", "callback": False,
+                    "params": [["a", "pk", None], ["b", "pk", I(0)]], "ignore": [], "compress": False,
+                    "versions": {"0": {"tag": "v0", "path": "verifmod.py", "pad": 0, "kind": "def"}}, "events": ev})
+        # C06-16: expires_after with an expiry of a day or more
+        for n_, spec in enumerate(({"days": 1}, {"weeks": 2}, {"hours": 36}, {"days": 7, "seconds": 1})):
+            ev = [["define", 0], ["wrap", 0], _call(0, [1], kind="check"), _call(0, [1]), _call(0, [1], kind="check"),
+                  _call(0, [1]), _call(0, [], [("a", 1)]), _call(0, [1, 0]), _call(0, [1], kind="shelve"), ["get", 0]]
+            out.append({"id": "fixed-expires-after-%d" % n_, "type": "sig", "callback": False, "expires": spec,
+                        "params": [["a", "pk", None], ["b", "pk", I(0)]], "ignore": [], "compress": False,
+                        "versions": {"0": {"tag": "v0", "path": "verifmod.py", "pad": 0, "kind": "def"}}, "events": ev})
         # C06-13: the function MOVES in its file between two sessions (lines added above it), text unchanged
         ev = []
         for n in range(3):
@@ -792,6 +818,30 @@ def fixed_scenarios(prop):
                     "ignore": [], "compress": False, "versions": V, "mode": "same",
                     "events": [["define", 1], ["wrap", 1, 1], cl(1, 1), ["newprocess"], ["define", 2], ["wrap", 2, 0],
                                ["wrap", 2, 1], cl(2, 0), cl(2, 1), cl(2, 0), cl(2, 1), cl(2, 1, 1)]})
+        # C12-16: the first use in a fresh session after an edit is MemorizedFunc.call (forced execution)
+        def cf(k, a=0):
+            return ["call", k, {"pos": [I(a)], "kw": [], "via": "call"}, True]
+        out.append({"id": "fixed-forced-call-after-edit", "type": "c12", "params": [["x", "pk", None]], "ignore": [],
+                    "compress": False, "versions": V, "mode": "same",
+                    "events": [["define", 1], ["wrap", 1], _c(1, 1), _c(1, 2), _c(1, 3), ["newprocess"], ["define", 2],
+                               ["wrap", 2], cf(2, 1), _c(2, 2), _c(2, 3), _c(2, 1)]})
+        # C02-16: two SCRIPTS without a .py suffix in a dotted directory, each with its own __main__ function g, alive
+        # at the same time on one cache directory (two function identifiers: model run with one text and disjoint keys)
+        Vs = {"1": {"tag": "train", "path": ".local/bin/train", "pad": 0, "kind": "main", "text": 1},
+              "2": {"tag": "evaluate", "path": ".local/bin/evaluate", "pad": 0, "kind": "main", "text": 2}}
+        out.append({"id": "fixed-two-scripts-dotted-directory", "type": "c12", "procs": 2, "multi_id": True,
+                    "params": [["x", "pk", None]], "ignore": [], "compress": False, "versions": Vs, "mode": "own",
+                    "events": [["proc", 0], ["define", 1], ["wrap", 1], _c(1), _c(1, 1), ["proc", 1], ["define", 2],
+                               ["wrap", 2], _c(2), _c(2, 1), ["proc", 0], _c(1), _c(1, 1), _c(1, 2), ["proc", 1], _c(2),
+                               _c(2, 2), ["proc", 0], _c(1, 2)]})
+        # aliases + Memory.clear + an EDIT + a fresh process (C02-15)
+        out.append({"id": "fixed-aliases-clear-edit-new-process", "type": "c12", "locs": 2,
+                    "loc_alias": [[0, "abs"], [0, "rel"]],
+                    "params": [["x", "pk", None]], "ignore": [], "compress": False,
+                    "versions": {k_: dict(v_, path="verifmod.py") for k_, v_ in V.items()}, "mode": "same",
+                    "events": [["define", 1], ["wrap", 1, 0], ["wrap", 1, 1], cl(1, 1), cl(1, 1, 1), ["clearmem", 0],
+                               cl(1, 1), cl(1, 1, 1), cl(1, 1, 2), ["newprocess"], ["define", 2], ["wrap", 2, 0],
+                               cl(2, 0, 1), cl(2, 0), cl(2, 0, 2)]})
         # C12-13: the file is edited while session 1 runs version 1; cf.clear() in that session; a fresh session
         # imports version 2
         out.append({"id": "fixed-clear-after-file-edit", "type": "c12", "params": [["x", "pk", None]], "ignore": [],
@@ -1166,7 +1216,9 @@ def gen_c12_scenario(rng, sid):
             if rng.random() < 0.12:
                 nref = sum(1 for e in events if e[0] == "shelve")
                 events += [["shelve", k, cs, True], ["get", nref]]
-            if vld and rng.random() < 0.12:
+            if vld and rng.random() < 0.05:
+                events.append(["call", k, dict(cs, via="call"), True])      # MemorizedFunc.call: forced execution
+            elif vld and rng.random() < 0.12:
                 # memory.eval(f, x): a decoration of its own for this one call; followed by a fresh persistent
                 # wrapper so that model (one wrapper per object) and implementation stay in step
                 events += [["wrap", k], ["call", k, dict(cs, via="eval"), True], ["wrap", k]]
@@ -1308,7 +1360,7 @@ def run_scenario(sc, timeout=300):
             job = {"cache": cache, "moddir": moddir, "refs": os.path.join(tmp, "refs.pkl"),
                    "scenario": {k: sc[k] for k in ("versions", "params", "ignore", "compress", "verbose", "mmap_mode",
                                                    "picklable", "callback", "pids", "backend", "body_ignore", "loc_alias",
-                                                   "keep_mtime", "pads", "loc_form", "eval_wrapper")
+                                                   "keep_mtime", "pads", "loc_form", "eval_wrapper", "expires")
                                 if k in sc}, "events": seg,
                    "segment": nseg}
             p = subprocess.run([common.PYNP if sc.get("py") == "np" else common.PY,
@@ -1350,7 +1402,8 @@ def run_live_processes(sc, cache, moddir, tmp, timeout):
                 children[p_] = ch
                 msg = {"cache": cache, "moddir": moddir, "refs": os.path.join(tmp, "refs_%s.pkl" % p_),
                        "scenario": {k: sc[k] for k in ("versions", "params", "ignore", "compress", "callback",
-                                                        "keep_mtime") if k in sc}, "events": evs, "segment": p_}
+                                                        "keep_mtime", "multi_id") if k in sc}, "events": evs,
+                       "segment": p_}
             else:
                 ch = children[p_]
                 msg = {"events": evs}
@@ -1522,6 +1575,7 @@ def judge(sc, res):
                                      "what": "args_id differs from the equivalent call at event %d" % j})
                         break
                 seen_keys[i] = (r["bind_r"], r.get("args_id"))
+            forced = t == "call" and ev[2].get("via") == "call"
             executed = r["n"] > 0
             # C06_check: the preceding identical check predicted this call
             if pending_check and pending_check[1:4] == ((k, L), json.dumps(ev[2], sort_keys=True), vld):
@@ -1554,7 +1608,11 @@ def judge(sc, res):
             else:
                 ref_info[r["r"]] = (i, text, r["bind_r"], r["expect"], r.get("ref_args_id"))
             # recomputation of an equivalent completed call
-            if vld and ck in completed and executed:
+            if forced:
+                if not executed:
+                    devs.append({"prop": "C12", "kind": "forced-call-not-executed", "event": i, "key": None,
+                                 "what": "MemorizedFunc.call did not execute the function"})
+            elif vld and ck in completed and executed:
                 j = completed[ck]
                 key = fa_key([i, j]) if not multi else version_key(i)
                 devs.append({"prop": "C06" if sc["type"] != "c12" else "C12",
@@ -1565,6 +1623,11 @@ def judge(sc, res):
             # a call of another text wipes what other texts stored (that is the point of C12)
             for other in [c for c in completed if c[0] != text and not elsewhere(c)]:
                 del completed[other]
+            if forced:
+                # a forced call stores its value without any code check: whether the entry survives the next
+                # ordinary call depends on what func_code.py held -- no expectation either way
+                completed.pop(ck, None)
+                continue
             completed[ck] = i
             by_args_id.setdefault(r.get("args_id"), set()).add(ck)
         elif t == "get":
@@ -1690,6 +1753,8 @@ def model_terms(sc, res):
     Returns (cfg, history, decode tables) or None when a harness error makes the scenario unusable."""
     if sc.get("locs"):
         return model_terms_loc(sc, res)
+    if any(e[0] == "call" and e[2].get("via") == "call" for e in sc["events"]):
+        return None      # MemorizedFunc.call (forced execution) has no model event: judged by the oracle only
     evs = res["events"]
     V = sc["versions"]
     kmax = max(int(k) for k in V)
@@ -1711,7 +1776,7 @@ def model_terms(sc, res):
             return None
         if t == "hotreload":
             hist.append("Define %d; Wrap %d" % (ev[2], ev[2]))
-        elif t in ("rewrap", "pickled", "recache", "proc"):
+        elif t in ("rewrap", "pickled", "recache", "proc", "jlog"):
             hist.append("Get 999999")     # the copy has the state of the original: no model event (OSkip)
         elif t == "recode":
             hist.append("Wrap %d" % ev[1])    # an equal code object: the wrapper drops its cached source text
@@ -2017,7 +2082,12 @@ def gen_for(ctx, prop, n=None):
         # source-less functions edited between sessions, a live process overtaken by another one with edited code
         scs += [sc_ for sc_ in fixed_scenarios("C12") if sc_["id"] in ("fixed-sourceless-literal-edit",
                                                                      "fixed-sourceless-global-name-edit",
-                                                                     "fixed-live-process-overtaken")]
+                                                                     "fixed-live-process-overtaken",
+                                                                     "fixed-aliases-clear-then-redefine",
+                                                                     "fixed-aliases-clear-edit-new-process",
+                                                                     "fixed-two-scripts-dotted-directory")]
+        # several spellings of one cache directory (admissible at every location): the C02 oracle on the alias histories
+        scs += [gen_loc_scenario(rng, "loc-%d" % i) for i in range(12 if quick else 100)]
         scs += [gen_procs_scenario(rng, "procs-%d" % i) for i in range(12 if quick else 100)]
     if numpy_available():
         scs += fixed_numpy_scenarios()
